@@ -22,7 +22,118 @@ func init() { register("C03", runC03) }
 
 type p8 struct{ A, B int8 }
 
+// c03sweep: ALL call sequences of up to 6 calls starting with call `first` of an 8-call
+// alphabet {Add 0, Remove 0, Has 0, Add 1, Remove 1, Has 1, Len+Slice, Clone and continue
+// on the clone} on a fresh set of one implementation, against the membership model; at
+// the end every set that was cloned from must still hold what it held.
+func c03sweep(c *core.Ctx, impl string, first int) {
+	const nOps = 8
+	seqs := 0
+	name := []string{"Add(0)", "Remove(0)", "Has(0)", "Add(1)", "Remove(1)", "Has(1)", "Len+Slice", "Clone+continue"}
+	for L := 1; L <= 6; L++ {
+		total := 1
+		for i := 1; i < L; i++ {
+			total *= nOps
+		}
+		for code := 0; code < total; code++ {
+			var s sets.Set[int]
+			if impl == "maps" {
+				s = make(tmaps.Set[int])
+			} else {
+				s = new(sync2.Set[int])
+			}
+			model := map[int]bool{}
+			type frozen struct {
+				s sets.Set[int]
+				m map[int]bool
+			}
+			var olds []frozen
+			var hist []string
+			fail := func(sig, msg string) {
+				c.Violate("sweep:"+sig+"["+impl+"]", fmt.Sprintf("%s [exhaustive sweep on a fresh %s set, calls %v]", msg, impl, hist), map[string]any{"history": hist})
+			}
+			for x, k := code, 0; k < L; k++ {
+				op := first
+				if k > 0 {
+					op = x % nOps
+					x /= nOps
+				}
+				hist = append(hist, name[op])
+				switch op {
+				case 0, 3:
+					v := op / 3
+					if got := s.Add(v); got != !model[v] {
+						fail("Add:return", fmt.Sprintf("Add(%d) returned %v, membership before was %v", v, got, model[v]))
+						return
+					}
+					model[v] = true
+				case 1, 4:
+					v := op / 3
+					if got := s.Remove(v); got != model[v] {
+						fail("Remove:return", fmt.Sprintf("Remove(%d) returned %v, membership before was %v", v, got, model[v]))
+						return
+					}
+					delete(model, v)
+				case 2, 5:
+					v := op / 3
+					if got := s.Has(v); got != model[v] {
+						fail("Has", fmt.Sprintf("Has(%d)=%v, model %v", v, got, model[v]))
+						return
+					}
+				case 6:
+					sl := s.Slice()
+					sort.Ints(sl)
+					want := []int{}
+					for v := 0; v < 2; v++ {
+						if model[v] {
+							want = append(want, v)
+						}
+					}
+					if s.Len() != len(model) || !eqSlice(sl, want) {
+						fail("Len/Slice", fmt.Sprintf("Len()=%d Slice()=%v, members %v", s.Len(), sl, want))
+						return
+					}
+				case 7:
+					cp := map[int]bool{}
+					for v := range model {
+						cp[v] = true
+					}
+					olds = append(olds, frozen{s, cp})
+					s = s.Clone()
+				}
+			}
+			olds = append(olds, frozen{s, model})
+			for _, o := range olds {
+				n := 0
+				ok := true
+				o.s.Range(func(v int) bool {
+					n++
+					if !o.m[v] {
+						ok = false
+					}
+					return true
+				})
+				if !ok || n != len(o.m) || o.s.Len() != len(o.m) || o.s.Has(0) != o.m[0] || o.s.Has(1) != o.m[1] {
+					fail("final", fmt.Sprintf("a set that was cloned from (or the final set) has Len %d, Range visits %d, Has(0)=%v Has(1)=%v; members should be %v", o.s.Len(), n, o.s.Has(0), o.s.Has(1), o.m))
+					return
+				}
+			}
+			seqs++
+		}
+	}
+	c.Count("exhaustive_sweep_sequences", int64(seqs))
+	c.Count("exhaustive_sweeps_completed", 1)
+	c.NonTrivial(core.Mix(3, uint64(first), core.HashString(impl)))
+	if c.WantSample() {
+		c.Sample(map[string]any{"systematic": true, "implementation": impl, "first_call": name[first], "sequences_enumerated": seqs})
+	}
+}
+
 func runC03(c *core.Ctx) {
+	if c.Index < 16 {
+		c03sweep(c, []string{"maps", "sync2"}[c.Index/8], int(c.Index%8))
+		return
+	}
 	if c.Index%100 == 17 {
 		// big sets: hundreds of members (bulk constructors, long dirty maps)
 		n := c.R.Range(300, 1500)
